@@ -95,7 +95,7 @@ def run(F, chk):
     for b in F.grep("f|%s|ConnectionH2|last_stream_id" % H2):
         if writes_of(b, H2, "last_stream_id"):
             writers.add(b.path.split("::")[-1])
-    okw = {"create_stream", "new_stream_id", "set_last_stream_id_for_test", "new_server", "new_client", "new"}
+    okw = {"create_stream", "new_stream_id", "__test_set_last_stream_id", "new_server", "new_client", "new"}
     if writers and writers <= okw:
         rb.ok("ConnectionH2.last_stream_id writers", "", "%s" % sorted(writers), nontrivial=False)
     else:
